@@ -98,8 +98,11 @@ func H04burst() {
 	vAssert(gerr == nil && gf != nil, "C04.burst.base-decodes")
 	q := vParam("q")
 	p := vU16()
-	o := vByte() & 7
+	o := byte(vParam("o"))
 	vAssume(p != 0)
+	if vParam("bits") < 16 {
+		vAssume(p>>uint(vParam("bits")) == 0)
+	}
 	e := uint32(p) << o
 	touched := func(i int) bool { return i == 0 || (i >= 4 && i <= 7) }
 	for k := 0; k < 3; k++ {
